@@ -105,6 +105,17 @@ func NewKeyDialect(name string, U int, layers []uint8) *KeyDialect {
 	return d
 }
 
+// Reverse turns the dialect's order around (for runs whose configured KeyCompare orders the
+// keys descending): everything in the harness that needs an order takes it from rank / sorted.
+func (d *KeyDialect) Reverse() {
+	for i, j := 0, len(d.sorted)-1; i < j; i, j = i+1, j-1 {
+		d.sorted[i], d.sorted[j] = d.sorted[j], d.sorted[i]
+	}
+	for pos, idx := range d.sorted {
+		d.rank[idx] = pos
+	}
+}
+
 // extreme integer keys (whole-range ordering, wrap-around in comparators or layer
 // arithmetic) occupy the last indexes of integer universes of 12 keys or more
 var extremeInts = []int64{math.MinInt64, math.MaxInt64, -6000000000000000000, 6000000000000000000, math.MinInt64 + 1, math.MaxInt64 - 1}
